@@ -266,7 +266,17 @@ def r07_5(ctx, prog, crate):
                   % (tf, from_task, through_field, foreign), c.line())
 
 
+def r07_6(ctx, prog, crate):
+    """The caller waits on EVERY way out of a broadcast: no return and no unwinding leaves broadcast_task before the loop
+    that observes ref_count == 0 (a caller that has left is not woken 'after the last worker finishes', its wake-up
+    becomes a stale token and the workers touch a dead frame).  Clause shared with C06 (R06.4)."""
+    from .C06 import r06_4
+    from .common import Renamed
+    r06_4(Renamed(ctx, "R07.6"), prog, crate)
+
+
 def run(ctx, prog, crate):
+    r07_6(ctx, prog, crate)
     r07_5(ctx, prog, crate)
     r07_1(ctx, prog, crate)
     r07_2(ctx, prog, crate)
